@@ -21,7 +21,8 @@ R-C01.6  `compile_bb`, `sort_vars` and `compare_var` interpreted as a whole on s
 R-C01.7  `choose_vars_for_tuple_sum` interpreted with a recording conditional builder on overlapping / equal / empty rows: every
          live place enters the branch conditional exactly once, case i tags exactly row i's values in order (c01_sum.py).
 R-C01.4  return variables are prepended consistently to the exit signature and to every
-         predecessor's output row (c01_retvars.py, below).
+         predecessor's output row, and lowering the same checked CFG a second time (`compile_cfg` interpreted twice on one
+         CFG object, as for several monomorphic instances) leaves the signatures unchanged (c01_retvars.py).
 """
 
 from __future__ import annotations
@@ -221,6 +222,7 @@ def run(ctx: Ctx) -> None:
     # ------------------------------------------------------------ R-C01.4 return variables
     from . import c01_retvars
     c01_retvars.run(ctx)
+    c01_retvars.run_twice(ctx)
 
     # ------------------------------------------------------------ R-C01.5 struct/tuple places
     from . import c01_places
